@@ -33,7 +33,8 @@ PositionScorer::PositionScorer() : _pawn_hash_table(), _weight(-1) {}
 
 void PositionScorer::clear()
 {
-    _pawn_hash_table.clear();
+    // HashMap::clear() only zeroes the keys, and key 0 is the key of every pawnless position
+    _pawn_hash_table = PawnHashMap();
 }
 
 Value PositionScorer::combine(const Score& score)
